@@ -39,33 +39,35 @@ theorem foldl_procLG (items : List (String × Shape)) :
   rfl
 
 set_option hygiene false in
-/-- one pass of the translated loop is `dictSet g key (procLG shape)`: cases on the first row of the points -/
+/-- one pass of the translated loop is `dictSet g key (procLG shape)`: cases on the first row of the points (the
+re-tupling may be written per dimension or as one transposition of strided slices) -/
 macro "ljson_step" : tactic => `(tactic|
   (intro g it
    obtain ⟨key, sh⟩ := it
    simp only [Option.isSome_none, Bool.false_eq_true, ↓reduceIte, tojson, rowLen0, map_nan_filter, procLG,
-     exportPoints, zipRows2_takeEvery, zipRows3_takeEvery]
+     exportPoints, zipRows2_takeEvery, zipRows3_takeEvery, transpose_pair, transpose_triple]
    cases sh.points with
    | nil => simp [Except.bind]
    | cons r rs =>
      simp only [Except.bind, tryE_ok]
      by_cases h2 : r.length = 2
-     · simp [h2]
+     · simp [h2, transpose_stride2, transpose_pair]
      · by_cases h3 : r.length = 3
-       · simp [h3]
+       · simp [h3, transpose_stride3, transpose_triple]
        · simp [h2, h3]))
 
-/-- `ljson_exporter` -/
+/-- `ljson_exporter` (a shape is recognised by `n_points`: probed with try/except or with hasattr) -/
 theorem genLjsonExporter_eq (o : LObj) : genLjsonExporter o = ljsonExporterSpec o := by
   unfold genLjsonExporter ljsonExporterSpec
   cases o with
   | single s =>
-    simp only [LObj.nPoints, Except.bind, tryE_ok, LObj.wrap, LObj.items]
+    simp only [LObj.nPoints, LObj.hasNPoints, Except.bind, tryE_ok, LObj.wrap, LObj.items, ↓reduceIte]
     rw [forLoop_no_exit _ (fun g it => dictSet g it.1 (procLG it.2)) ?_]
     · simp only [foldl_procLG]
     · ljson_step
   | multi gs =>
-    simp only [LObj.nPoints, Except.bind, tryE_error, LObj.wrap, LObj.items, beq_self_eq_true, ↓reduceIte]
+    simp only [LObj.nPoints, LObj.hasNPoints, Except.bind, tryE_error, LObj.wrap, LObj.items, beq_self_eq_true,
+      ↓reduceIte, Bool.false_eq_true]
     rw [forLoop_no_exit _ (fun g it => dictSet g it.1 (procLG it.2)) ?_]
     · simp only [foldl_procLG]
     · ljson_step
@@ -154,7 +156,20 @@ theorem genParseNull_eq (pl : List (List (Option Rat))) : genParseNull pl = pars
   | nil => simp [rowLen0, Except.bind]
   | cons r t => simp [rowLen0, Except.bind]
 
-/-- `_parse_ljson_v3` (on a schema-valid document) -/
+theorem cls_of_truthy (ls : List (String × List Bool)) :
+    (if truthy ls = true then Cls.lpug else Cls.pug) = (if ls.isEmpty = true then Cls.pug else Cls.lpug) := by
+  cases ls <;> rfl
+
+set_option hygiene false in
+/-- one pass of a labels loop (in the body of the parser or in an inlined helper) is `labelStep` -/
+macro "label_step" : tactic => `(tactic|
+  (intro dd l
+   simp only [Option.isSome_none, Bool.false_eq_true, ↓reduceIte]
+   unfold labelStep
+   cases maskSet (List.replicate pts.length false) l.mask <;> simp [tryE]))
+
+/-- `_parse_ljson_v3` (on a schema-valid document; the labels loop may sit in the body or in a helper function, the
+empty dictionary may be created before the test or in its else branch) -/
 theorem genParseV3_eq (d : JDoc) : genParseV3 d = parseV3Spec d := by
   unfold genParseV3 parseV3Spec
   dsimp only
@@ -169,36 +184,29 @@ theorem genParseV3_eq (d : JDoc) : genParseV3 d = parseV3Spec d := by
     obtain ⟨name, g⟩ := a
     simp only [Option.isSome_none, Bool.false_eq_true, ↓reduceIte, genParseNull_eq]
     unfold groupStep groupSpec
-    cases parseNullSpec g.points with
-    | error e => rfl
+    -- along the decisions of the specification
+    cases hp : parseNullSpec g.points with
+    | error e => simp [tryE]
     | ok pts =>
-      simp only
       by_cases hl : g.labels.length = 0
-      · simp only [hl, bne_self_eq_false, Bool.false_eq_true, ↓reduceIte, ne_eq, not_true_eq_false, truthy_nil,
-          List.isEmpty_nil]
-        cases initFromEdges Cls.pug pts g.conn [] <;> rfl
+      · cases hi : initFromEdges Cls.pug pts g.conn [] <;> simp [tryE, hl, hi]
       · have hne : (g.labels.length != 0) = true := by simpa using hl
-        simp only [hne, ↓reduceIte, ne_eq, hl, not_false_eq_true]
+        simp only [tryE_ok, hne, ↓reduceIte, ne_eq, hl, not_false_eq_true]
         generalize hin : MenpoModel.Py.forLoop _ _ _ = ires
         have ikey := forLoop_foldX_of _ (labelStep pts.length) _ _ _ hin ?_ ?_
         · unfold labelsSpec
           revert ikey
           cases foldX _ _ g.labels with
-          | error e => intro ikey; simp only at ikey; simp only [ikey]
+          | error e => intro ikey; simp only at ikey; simp [ikey, tryE]
           | ok ls =>
             intro ikey
             simp only at ikey
             subst ikey
-            simp only
-            have hcls : (if truthy ls = true then Cls.lpug else Cls.pug) = (if ls.isEmpty = true then Cls.pug else Cls.lpug) := by
-              cases ls <;> rfl
-            rw [hcls]
-            cases initFromEdges _ pts g.conn ls <;> rfl
+            simp only [cls_of_truthy]
+            cases hi : initFromEdges (if ls.isEmpty = true then Cls.pug else Cls.lpug) pts g.conn ls <;>
+              simp [tryE, hi]
         · intro v s a; simp
-        · intro dd l
-          simp only [Option.isSome_none, Bool.false_eq_true, ↓reduceIte]
-          unfold labelStep
-          cases maskSet (List.replicate pts.length false) l.mask <;> rfl
+        · label_step
 
 /-- `_parse_ljson_v2` (on a schema-valid document) -/
 theorem genParseV2_eq (g : JGroup) : genParseV2 g = parseV2Spec g := by
@@ -219,18 +227,14 @@ theorem genParseV2_eq (g : JGroup) : genParseV2 g = parseV2Spec g := by
       · unfold labelsSpec
         revert ikey
         cases foldX _ _ g.labels with
-        | error e => intro ikey; simp only at ikey; simp only [ikey]
+        | error e => intro ikey; simp only at ikey; simp [ikey, Except.bind]
         | ok ls =>
           intro ikey
           simp only at ikey
           subst ikey
-          simp only
-          cases initFromEdges Cls.lpug pts g.conn ls <;> rfl
+          cases hi : initFromEdges Cls.lpug pts g.conn ls <;> simp [Except.bind, hi]
       · intro v s a; simp
-      · intro dd l
-        simp only [Option.isSome_none, Bool.false_eq_true, ↓reduceIte]
-        unfold labelStep
-        cases maskSet (List.replicate pts.length false) l.mask <;> rfl
+      · label_step
 
 /-- `_parse_ljson_v1` (on a schema-valid document) -/
 theorem genParseV1_eq (d : List JV1Group) : genParseV1 d = parseV1Spec d := by
